@@ -35,6 +35,29 @@ pub proof fn lemma_hist_lines_push(h: Seq<Ev>, e: Ev)
     assert(h.push(e).last() == e);
 }
 
+/// `h2` extends `h1` by direct writes only (no flush of painter output).
+pub open spec fn only_text_after(h1: Seq<Ev>, h2: Seq<Ev>) -> bool {
+    &&& h1.len() <= h2.len()
+    &&& h2.subrange(0, h1.len() as int) == h1
+    &&& forall|i: int| h1.len() <= i < h2.len() ==> (#[trigger] h2[i]) is Text
+}
+pub proof fn lemma_hist_lines_only_text(h1: Seq<Ev>, h2: Seq<Ev>)
+    requires only_text_after(h1, h2),
+    ensures hist_lines(h2) == hist_lines(h1),
+    decreases h2.len(),
+{
+    if h2.len() == h1.len() {
+        assert(h2 =~= h2.subrange(0, h1.len() as int));
+    } else {
+        let h2p = h2.drop_last();
+        assert(h2p.subrange(0, h1.len() as int) =~= h2.subrange(0, h1.len() as int));
+        assert(only_text_after(h1, h2p));
+        lemma_hist_lines_only_text(h1, h2p);
+        assert(h2.last() is Text);
+        assert(hist_lines(h2) =~= hist_lines(h2p));
+    }
+}
+
 /// `Painter::emit` (rule E4, option flush=on): the whole output buffer goes to the writer as one Flush event.
 #[verifier::external_body]
 pub fn verif_flush(w: &mut Writer, buf: &String) -> (r: std::io::Result<()>)
